@@ -99,6 +99,32 @@ class Source:
             self.module_src[mod] = src
             self._index(tree.body, mod, mod, None, src, path)
 
+    def fragment(self, qualname, params):
+        """loop body of a function as a pseudo-function: '<function qualname>::loop#k' (mechanical: the body
+        statements are the very AST nodes of the real loop; labels keep the ordinals of the enclosing function)"""
+        import copy
+        fq, lab = qualname.split("::", 1)
+        fi = self.funcs[fq]
+        node = None
+        for n in ast.walk(fi.node):
+            if isinstance(n, (ast.While, ast.For)) and fi.labels.get(id(n)) == lab:
+                node = n
+                break
+        if node is None:
+            raise KeyError("no %s in %s" % (lab, fq))
+        fn = ast.FunctionDef(name=fi.node.name, args=ast.arguments(
+            posonlyargs=[], args=[ast.arg(arg=p) for p in params], vararg=None, kwonlyargs=[], kw_defaults=[],
+            kwarg=None, defaults=[]), body=node.body, decorator_list=[], lineno=node.lineno, col_offset=0)
+        fr = copy.copy(fi)
+        fr.qualname = qualname
+        fr.node = fn
+        fr.decorators = []
+        seg = ast.get_source_segment(self.module_src[fi.module], node) or ""
+        fr.sha = hashlib.sha256(seg.encode()).hexdigest()
+        fr.nlines = (node.end_lineno or node.lineno) - node.lineno + 1
+        self.funcs[qualname] = fr
+        return fr
+
     def add_file(self, path, mod):
         """index an extra file (lemma programs: clients of the contracts, not repository code)"""
         with open(path, encoding="utf-8") as f:
